@@ -968,6 +968,12 @@ func (c *IPAMController) checkAllocations() ([]string, error) {
 			} else {
 				log.WithError(err).Warnf("Failed to lookup corresponding node, skipping %s", cnode)
 			}
+			// We don't judge this node's allocations, so forget any leak we recorded for them
+			// earlier (for example, while the node was missing from the datastore).
+			for _, a := range allocations {
+				a.markValid()
+				delete(c.confirmedLeaks, a.id())
+			}
 			c.allocationState.markClean(cnode, "node lookup skipped")
 			continue
 		}
